@@ -954,7 +954,11 @@ func (t *Term) Eval(m Model, memo map[*Term]uint64) uint64 {
 	case OConst:
 		r = t.K
 	case OVar:
-		r = m[t.Name] & mk
+		if v, ok := m[t.Name]; ok {
+			r = v & mk
+		} else {
+			r = t.lo // unconstrained so far: any value of its range will do
+		}
 	case OSum:
 		r = t.K
 		for i, a := range t.Args {
